@@ -173,6 +173,8 @@ pub struct MsgTrigger {
     pub after: bool,
     pub seen: u64,
     pub fired: bool,
+    /// files of the killed node (name, completed length) at the instant of the kill
+    pub files_at_kill: Vec<(String, u64)>,
 }
 
 thread_local! {
@@ -180,7 +182,20 @@ thread_local! {
 }
 
 pub fn set_msg_trigger(ptype: &str, dst: u64, nth: u64, after: bool) {
-    MSG_TRIGGER.with(|t| *t.borrow_mut() = Some(MsgTrigger { ptype: ptype.to_string(), dst, nth, after, seen: 0, fired: false }));
+    MSG_TRIGGER.with(|t| *t.borrow_mut() = Some(MsgTrigger { ptype: ptype.to_string(), dst, nth, after, seen: 0, fired: false, files_at_kill: vec![] }));
+}
+
+pub fn msg_trigger_files_at_kill() -> Vec<(String, u64)> {
+    MSG_TRIGGER.with(|t| t.borrow().as_ref().map(|t| t.files_at_kill.clone()).unwrap_or_default())
+}
+
+fn msg_trigger_note_files(dst: u64) {
+    let files = tokio::fs::list_files(&format!("{}/{}/", crate::core::run_root(sim::seed()), node_name(dst)));
+    MSG_TRIGGER.with(|t| {
+        if let Some(t) = t.borrow_mut().as_mut() {
+            t.files_at_kill = files.iter().map(|(n, l)| (n.rsplit('/').next().unwrap_or("").to_string(), *l as u64)).collect();
+        }
+    });
 }
 
 pub fn msg_trigger_fired() -> bool {
@@ -299,10 +314,14 @@ fn install_transport() {
                     }
                 });
             }
+            if ptype == "RaftSnapshotRequest" {
+                sim::count(&format!("net.snapshot_chunks_to_n{}", dst_id), 1);
+            }
             let trig = msg_trigger_hit(&ptype, dst_id);
             if trig == 1 {
                 sim::event(&format!("fault: node {} killed right before handling {} #{}", dst_id, ptype, MSG_TRIGGER.with(|t| t.borrow().as_ref().map(|t| t.nth).unwrap_or(0))));
                 sim::count("fault.kill_on_message", 1);
+                msg_trigger_note_files(dst_id);
                 kill_node_now(dst_id, false);
                 tokio::time::sleep(Duration::from_millis(timeout_ms)).await;
                 return Err(anyhow::anyhow!("sim: connection reset"));
@@ -311,6 +330,7 @@ fn install_transport() {
             if trig == 2 {
                 sim::event(&format!("fault: node {} killed right after handling {} #{}", dst_id, ptype, MSG_TRIGGER.with(|t| t.borrow().as_ref().map(|t| t.nth).unwrap_or(0))));
                 sim::count("fault.kill_on_message", 1);
+                msg_trigger_note_files(dst_id);
                 kill_node_now(dst_id, false);
                 tokio::time::sleep(Duration::from_millis(timeout_ms)).await;
                 return Err(anyhow::anyhow!("sim: connection reset"));
